@@ -15,6 +15,7 @@ DOC = {
         'C12.R1': 'Key = {file_id, chunk_pos, chunk_len} covering all FileChunk fields; tree id formatted from algorithm and transform command; FileHasher::new_cached passes its own algorithm and transform.command_str',
         'C12.R2': 'HashCache::get: Some only if modified_timestamp_ms == current and file_len == current (equality tests, both guarding the hit)',
         'C12.R3': 'put and get compute the time stamp with the same conversion chain (modified -> duration_since(UNIX_EPOCH) -> as_millis), and the chain has no lossy step (fallback constant, clamp, saturation): different modification times give different stamps',
+        'C12.R6': 'the validation of an entry (same mtime, same length) is only sound if the mtime would change on a later write: HashCache::put does not store an entry while the file is younger than the resolution of its time stamp (a time stamp without a fractional part is taken as 1-2 s coarse) - the store is control-dependent on a comparison of now, the modification time and its sub-second part',
         'C12.R5': 'a cached hash is returned only for a file that can still be opened: on the hit path of hash_file / hash_transformed the file is opened (error propagated) before the cached value is returned - stat() needs no read permission, so without it an unreadable file is reported from the cache while the uncached run warns and leaves it out',
         'C12.R4': 'hash_file / hash_transformed: load_hash and store_hash use the same key and metadata; metadata is captured before hashing; store follows a successful hash and is the last fallible-free step (no Err return after it)',
     },
@@ -32,6 +33,7 @@ def run(ctx):
     r3(ctx)
     r4(ctx)
     r5(ctx)
+    r6(ctx)
     from .common import run_mandatory
     run_mandatory(ctx, 'C12')
 
@@ -134,6 +136,39 @@ def r1(ctx):
     ctx.check(not missing, rule, nc.path + '|identity-covers-mode', (od[0].where() if od else nc.where()), 'the cache identity depends on %s' % sorted(selecting | {'command_str'}),
               'Transform.%s decides which stream is hashed or what the command is given as $IN (make_args builds a different Output / Input under it) but is not part of the cache identity (tree id = algorithm + command string): a run with '
               'the flag is served the hashes cached by a run without it - `--cache --transform "sed -i s/x/y/ $IN"` followed by the same with --in-place reports three different files as one group' % ', '.join(missing))
+
+
+def r6(ctx):
+    """An entry is only as good as the time stamp that validates it: put() does not store an entry while the file could still be
+    modified without its (coarse) modification time changing."""
+    rule = 'C12.R6'
+    lib = ctx.lib
+    b = ctx.need_body(rule, 'cache::HashCache::put')
+    if b is None:
+        return
+    ins = b.calls(r'::insert$')
+    if not ctx.floor(rule, 'insert into the cache tree in HashCache::put', len(ins), 1, b.where()):
+        return
+    I = ins[0]
+    guard = None
+    for d in b.dominators()[I.bb]:
+        t = b.blocks[d]['term']
+        if t['k'] != 'switch':
+            continue
+        sl = backslice(b, [t['op']])
+        bodies = [lib.body(c.path) for c in sl.calls if c.path and lib.body(c.path) is not None]
+        now = sl.has_call(r'SystemTime::now$|SystemTime::elapsed$|Instant::now$|Utc::now$|Local::now$') or any(x.calls(r'SystemTime::now$|SystemTime::elapsed$') for x in bodies)
+        mod = sl.has_call(r'Metadata::modified$|FileMetadata::modified$')
+        sub = sl.has_call(r'subsec_(nanos|micros|millis)$') or any(x.calls(r'subsec_(nanos|micros|millis)$') for x in bodies)
+        if now and mod and sub:
+            succ = [x for x in dict.fromkeys(t['tgts']) if b.blocks[x]['term']['k'] != 'unreach']
+            skip = [x for x in succ if I.bb not in b.reachable(x) and x != I.bb]
+            if skip and 'Err' not in return_variants_from(b, skip[0]):
+                guard = d
+    ctx.check(guard is not None, rule, b.path + '|racy-entries-not-stored', I.where(), 'an entry is not stored while the file is younger than the resolution of its time stamp (whole-second time stamps: 2 s)',
+              'put() stores an entry for a file whatever its age: on a file system that keeps whole seconds (ext3, ext4 with 128-byte inodes, HFS+, NFS; FAT: 2 s) a rewrite of the same length within the '
+              'same second leaves mtime and length as they were recorded, get() takes the entry for valid and returns the hash of the OLD content - two different files are reported as duplicates '
+              '(`group --cache` twice, with a same-length rewrite of one file ~100 ms after the first run) and `remove` deletes the only copy of one content')
 
 
 def r2(ctx):
